@@ -83,12 +83,12 @@ fn main() {
                     }
                     ds::plan_ds(tier, seed)
                 }
-                "C12h" => props::plan_history(prop, tier, seed, if thorough { if util::CFG == "p256" { 2000 } else { 8000 } } else { 400 }),
-                "C16h" => props::plan_history(prop, tier, seed, if thorough { 10000 } else { 600 }),
-                "C01h" | "C02h" => props::plan_history(prop, tier, seed, if thorough { if util::CFG == "p256" { 3000 } else { 10000 } } else { 800 }),
+                "C12h" => props::plan_history(prop, tier, seed, if thorough { if util::CFG == "p256" { 2000 } else { 8000 } } else { 800 }),
+                "C16h" => props::plan_history(prop, tier, seed, if thorough { 10000 } else { 1200 }),
+                "C01h" | "C02h" => props::plan_history(prop, tier, seed, if thorough { if util::CFG == "p256" { 3000 } else { 10000 } } else { 1500 }),
                 "C03" | "C04" | "C05" | "C06" | "C09" | "C10" | "C11" | "C13" | "C17" | "C18" => {
                     // the second configuration (P-256 + ML-KEM-768) is several times slower per operation
-                    props::plan_history(prop, tier, seed, if thorough { if util::CFG == "p256" { 5000 } else { 20000 } } else { 600 })
+                    props::plan_history(prop, tier, seed, if thorough { if util::CFG == "p256" { 5000 } else { 20000 } } else { 1500 })
                 }
                 _ => {
                     eprintln!("no differential campaign for {prop}");
